@@ -299,7 +299,7 @@ def render_log(wire, model=None):
     return out
 
 
-def parse_responses(data):
+def parse_responses(data, heads=None):
     """minimal independent HTTP/1.x response splitter for automatic responses (status, headers, body by Content-Length /
     chunked). returns list of dict(status, version, headers, body, complete) ; stops at the first incomplete message"""
     out = []
@@ -323,7 +323,9 @@ def parse_responses(data):
         body_start = j + 4
         body = b''
         end = body_start
-        if 100 <= status < 200 or status in (204, 304):
+        nfinal = sum(1 for r in out if (r.get('status') or 0) >= 200 or r.get('status') == 101)
+        is_head = bool(heads) and nfinal < len(heads) and heads[nfinal] and not (100 <= status < 200 and status != 101)
+        if 100 <= status < 200 or status in (204, 304) or is_head:
             pass
         elif 'transfer-encoding' in hd and 'chunked' in hd['transfer-encoding'].lower():
             k = body_start
